@@ -25,26 +25,19 @@ Lemma wf_src a : wf (src_of a). Proof. destruct a; vm_compute; reflexivity. Qed.
 Lemma wf_src_low a : wf (src_low a). Proof. destruct a; vm_compute; reflexivity. Qed.
 Lemma wf_dst a : wf (dst_of a). Proof. destruct a; vm_compute; reflexivity. Qed.
 
-(** ** the finding: target with one atmosphere block, source with one per column *)
-Lemma keyerror_witness : block_mapping nearest_exec (src_of Atm1) (dst_of Atm0) = Raise KeyError.
-Proof. vm_compute. reflexivity. Qed.
-Lemma keyerror_witness2 : block_mapping nearest_exec (src_of Atm2) (dst_of Atm0) = Raise KeyError.
-Proof. vm_compute. reflexivity. Qed.
-
-Lemma block_mapping_total_refuted_l :
-  ~ (forall nearest self geo, nearest_spec nearest -> wf self -> wf geo ->
-       exists m cm, block_mapping nearest self geo = Ok (m, cm)).
-Proof.
-  intro H. destruct (H nearest_exec (src_of Atm1) (dst_of Atm0) nearest_exec_spec (wf_src Atm1) (wf_dst Atm0)) as [m [cm E]].
-  rewrite keyerror_witness in E. discriminate.
-Qed.
+(** ** the arrangement that used to raise KeyError (target with one atmosphere block, source with one
+    per column or none): the target's atmosphere block is given the atmosphere block over the first source column *)
+Example former_keyerror_example :
+  exists m cm, block_mapping nearest_exec (src_of Atm1) (dst_of Atm0) = Ok (m, cm) /\
+    dget (s2l "ATM 0") m = Ok (s2l "  a 0") /\ dget (s2l "  c 1") m = Ok (s2l "  b 1").
+Proof. eexists. eexists. split; [vm_compute; reflexivity|]. vm_compute. repeat split. Qed.
 
 (** ** hypotheses are satisfiable *)
-Example total_hyps_sat : nearest_spec nearest_exec /\ wf (src_low Atm1) /\ wf (dst_of Atm1) /\
-  ~ atm_class (src_low Atm1) (dst_of Atm1) /\ ug_blocks (dst_of Atm1) <> [] /\ atm_blocks (dst_of Atm1) <> [].
+Example total_hyps_sat : nearest_spec nearest_exec /\ wf (src_low Atm1) /\ wf (dst_of Atm0) /\
+  ug_blocks (dst_of Atm0) <> [] /\ atm_blocks (dst_of Atm0) <> [].
 Proof.
   split; [exact nearest_exec_spec|]. split; [apply wf_src_low|]. split; [apply wf_dst|].
-  split; [intros [A _]; discriminate|]. split; vm_compute; discriminate.
+  split; vm_compute; discriminate.
 Qed.
 
 (** the above-surface correction at work: target block "  c 1" has nearest column "  b" and nearest
@@ -71,13 +64,15 @@ Definition sinc1 : incon :=
    b_ "  a 2" [12 # 1; 23 # 1]%Q; b_ "  b 2" [13 # 1; 24 # 1]%Q].
 
 Example incon_hyps_sat :
-  map fst sinc1 = block_name_list (src_of Atm1) /\ covers sinc1 (src_of Atm1) /\
+  map fst sinc1 = block_name_list (src_of Atm1) /\ covers sinc1 (src_of Atm1) /\ uniform sinc1 /\
   exists new, incon_transfer nearest_exec None sinc1 (src_of Atm1) (dst_of Atm1) = Ok new /\
               map fst new = map s2l ["  c 0"; "  c 1"; "  c 2"]%string.
 Proof.
   split; [vm_compute; reflexivity|]. split.
   - intros b I. vm_compute in I. repeat (destruct I as [E|I]; [subst b; vm_compute; eauto|]). destruct I.
-  - eexists. split; vm_compute; reflexivity.
+  - split.
+    + exists 2. intros k st I. vm_compute in I. repeat (destruct I as [E|I]; [inversion E; reflexivity|]). destruct I.
+    + eexists. split; vm_compute; reflexivity.
 Qed.
 
 (** averaging (explicit maps, target with one atmosphere block, source with one per column) *)
